@@ -280,3 +280,116 @@ func SpecGraph6(s []byte) (n int, es []Edge, ok bool) {
 	}
 	return n, es, true
 }
+
+// DeclaredN is the vertex count a graph6 string (or a sparse6 string after its ':') declares.
+func DeclaredN(s []byte) (n int, ok bool) {
+	n, _, ok = readN(s)
+	return n, ok
+}
+
+// ---------------------------------------------------------------- encoders from the format text
+// (used by generators that need valid strings without calling the code under test)
+
+// EncN is N(n) in its shortest form; form = 4 or 8 forces the longer forms.
+func EncN(n int, form int) []byte {
+	r := func(v int, groups int) []byte {
+		out := make([]byte, groups)
+		for i := groups - 1; i >= 0; i-- {
+			out[i] = byte(v&63) + 63
+			v >>= 6
+		}
+		return out
+	}
+	if form == 0 {
+		switch {
+		case n <= 62:
+			form = 1
+		case n <= 258047:
+			form = 4
+		default:
+			form = 8
+		}
+	}
+	switch form {
+	case 1:
+		return []byte{byte(n + 63)}
+	case 4:
+		return append([]byte{126}, r(n, 3)...)
+	}
+	return append([]byte{126, 126}, r(n, 6)...)
+}
+
+// PackBits is R(x) with the given padding bit.
+func PackBits(bits []byte, pad byte) []byte {
+	var out []byte
+	for i := 0; i < len(bits); i += 6 {
+		v := byte(0)
+		for j := 0; j < 6; j++ {
+			b := pad
+			if i+j < len(bits) {
+				b = bits[i+j]
+			}
+			v = v<<1 | b
+		}
+		out = append(out, v+63)
+	}
+	return out
+}
+
+// SpecGraph6Encode writes the graph6 string of (n, es) from the format text.
+func SpecGraph6Encode(n int, es []Edge, form int) []byte {
+	bits := make([]byte, n*(n-1)/2)
+	for _, e := range es {
+		if e.U < e.V && e.V < n && e.U >= 0 {
+			bits[e.V*(e.V-1)/2+e.U] = 1
+		}
+	}
+	return append(EncN(n, form), PackBits(bits, 0)...)
+}
+
+// PairBits appends the pair (b, x) with x in k bits.
+func PairBits(bits []byte, b byte, x, k int) []byte {
+	bits = append(bits, b)
+	for j := k - 1; j >= 0; j-- {
+		bits = append(bits, byte(x>>uint(j))&1)
+	}
+	return bits
+}
+
+// BitsFor is the number of bits needed to represent n-1.
+func BitsFor(n int) int {
+	k := 0
+	for n > 1 && (1<<uint(k)) < n {
+		k++
+	}
+	return k
+}
+
+// SpecSparse6Encode writes a sparse6 string of (n, es) (es sorted by V then U) in the way the
+// format text describes, including the padding rule.
+func SpecSparse6Encode(n int, es []Edge, form int) []byte {
+	k := BitsFor(n)
+	var bits []byte
+	v := 0
+	for _, e := range es {
+		switch {
+		case e.V == v:
+			bits = PairBits(bits, 0, e.U, k)
+		case e.V == v+1:
+			v++
+			bits = PairBits(bits, 1, e.U, k)
+		default:
+			v = e.V
+			bits = PairBits(bits, 1, e.V, k)
+			bits = PairBits(bits, 0, e.U, k)
+		}
+	}
+	if r := len(bits) % 6; r != 0 {
+		padLen := 6 - r
+		if (n == 2 || n == 4 || n == 8 || n == 16) && v == n-2 && padLen >= k+1 {
+			bits = append(bits, 0)
+		}
+	}
+	out := append([]byte{':'}, EncN(n, form)...)
+	return append(out, PackBits(bits, 1)...)
+}
